@@ -442,6 +442,21 @@ class Ctx:
             self.discharged += 1
         return True
 
+    def prove_dep(self, target_v, why):
+        """Another property's theorem file that this property's claim composes with: its cone must build
+        too (no pins audit here - the owning check does that)."""
+        files = cone(target_v)
+        n, names = count_obligations(files)
+        self.obligations += n
+        ok, out = coq_make([target_v + 'o'])
+        if not ok:
+            site = coq_failure_site(out) or {'file': '?', 'lemma': None, 'error': out[-1500:]}
+            self.broken.append({'kind': 'proof', 'name': '%s (%s) [needed because %s]' % (site.get('lemma'), site.get('file'), why), 'detail': site.get('error')})
+            self.log('dependent proof obligation FAILED:', site.get('lemma'), 'in', site.get('file'))
+            return False
+        self.discharged += n
+        return True
+
     def driver(self, component, fns, make_targets):
         ok, out = build_driver(component, fns, make_targets)
         if not ok:
